@@ -1,0 +1,60 @@
+//go:build verif
+
+package validate
+
+import (
+	re "regexp"
+	"sync/atomic"
+)
+
+// Verification hooks, compiled only with the "verif" build tag.
+//
+// They let an external test harness observe the instant an object is handed
+// back to the pools (to poison it, or to keep it out of the pool altogether),
+// reset the pools and the regexp cache between generated cases, and read the
+// content of the regexp cache. With the tag off none of this exists.
+
+var verifRedeemHook atomic.Value // func(obj any) (swallow bool)
+
+// VerifSetRedeemHook installs (or, with nil, removes) a callback invoked with every
+// object about to be put back into a pool. When the callback returns true the
+// object is not put back (recycling is effectively switched off).
+func VerifSetRedeemHook(h func(obj any) (swallow bool)) {
+	if h == nil {
+		verifRedeemHook.Store((func(any) bool)(nil))
+		return
+	}
+	verifRedeemHook.Store(h)
+}
+
+func verifRedeemed(obj any) bool {
+	h, _ := verifRedeemHook.Load().(func(any) bool)
+	if h == nil {
+		return false
+	}
+	return h(obj)
+}
+
+// VerifResetPools replaces all pools by fresh ones.
+func VerifResetPools() { resetPools() }
+
+// VerifResetRegexpCache empties the cache of compiled regular expressions.
+func VerifResetRegexpCache() {
+	cacheMutex.Lock()
+	defer cacheMutex.Unlock()
+	reDict.Store(map[string]*re.Regexp{})
+}
+
+// VerifRegexpCache returns a snapshot of the cache: key -> String() of the cached expression.
+func VerifRegexpCache() map[string]string {
+	out := map[string]string{}
+	cache, _ := reDict.Load().(map[string]*re.Regexp)
+	for k, v := range cache {
+		if v == nil {
+			out[k] = "<nil>"
+			continue
+		}
+		out[k] = v.String()
+	}
+	return out
+}
